@@ -334,14 +334,15 @@ Proof.
   - apply base_same_out; reflexivity.
   - apply base_write_goaway.
   - apply base_brk.
+  - eapply base_trans; [apply base_note | apply base_brk].
 Qed.
 Lemma hmvs_base k a b : hmvs k a b -> base a b.
-Proof. apply hmvs_ind_rel; auto using base_refl, hmv_base. intros; eapply base_trans; eassumption. Qed.
+Proof. apply hmvs_ind_rel; eauto using base_refl, hmv_base. intros; eapply base_trans; eassumption. Qed.
 
 Lemma hmv_dec k a b : hmv k a b -> sc_dec b = sc_dec a.
 Proof. intros []; sc_rw; auto. unfold hsame in *. tauto. Qed.
 Lemma hmvs_dec k a b : hmvs k a b -> sc_dec b = sc_dec a.
-Proof. apply (hmvs_ind_rel (fun a b => sc_dec b = sc_dec a)); auto using hmv_dec. intros; congruence. Qed.
+Proof. apply (hmvs_ind_rel k (fun a b => sc_dec b = sc_dec a)); eauto using hmv_dec. intros; congruence. Qed.
 
 Lemma gcount_write_goaway c sid code : sc_wl_dead c = false ->
   (gcount (sc_out c) < gcount (sc_out (write_goaway c sid code)))%nat.
@@ -371,11 +372,12 @@ Proof.
   - left. split; reflexivity.
   - right. split; [apply sc_closing_write_goaway | apply gcount_write_goaway].
   - left. split; reflexivity.
+  - left. split; reflexivity.
 Qed.
 Lemma hmvs_closing k a b : hmvs k a b -> closing_eff a b.
 Proof.
   induction 1 as [|a b c M MS IH]; [apply closing_eff_refl|].
-  eapply closing_eff_trans; [apply hmv_base; eassumption | apply hmvs_base; eassumption | apply hmv_closing; assumption | assumption].
+  eapply closing_eff_trans; [eapply hmv_base; eassumption | eapply hmvs_base; eassumption | eapply hmv_closing; eassumption | assumption].
 Qed.
 
 Lemma hmv_done k a b : hmv k a b -> done_eff a b.
@@ -383,6 +385,7 @@ Proof.
   intros []; try (left; sc_rw; reflexivity).
   - left. unfold hsame in *. tauto.
   - right. split; [reflexivity | left; assumption].
+  - right. split; [reflexivity | right]. intros _. unfold brk, note. sc_cbn. rewrite !gcount_cons. cbn [conn_err_out]. lia.
   - right. split; [assumption | right; assumption].
 Qed.
 
@@ -392,12 +395,12 @@ Lemma hmvs_done k a b : hmvs k a b ->
   (sc_sl_done b = true /\ (sc_closing a = true \/ (sc_wl_dead a = false -> (gcount (sc_out a) < gcount (sc_out b))%nat))).
 Proof.
   induction 1 as [|a b c M MS IH]; [left; reflexivity|].
-  pose proof (hmv_base _ _ M) as (O1 & W1 & _). pose proof (hmvs_base _ _ MS) as (O2 & _).
+  pose proof (hmv_base _ _ _ M) as (O1 & W1 & _). pose proof (hmvs_base _ _ _ MS) as (O2 & _).
   apply oext_gcount in O1. apply oext_gcount in O2.
-  destruct (hmv_done _ _ M) as [E1|[E1 G1]]; destruct IH as [E2|[E2 G2]].
+  destruct (hmv_done _ _ _ M) as [E1|[E1 G1]]; destruct IH as [E2|[E2 G2]].
   - left. congruence.
   - right. split; [assumption|]. destruct G2 as [G2|G2].
-    + destruct (hmv_closing _ _ M) as [[C1 _]|[_ C1]]; [left; congruence|]. right. intro W. specialize (C1 W). lia.
+    + destruct (hmv_closing _ _ _ M) as [[C1 _]|[_ C1]]; [left; congruence|]. right. intro W. specialize (C1 W). lia.
     + right. intro W. rewrite W1 in G2. specialize (G2 W). lia.
   - right. split; [congruence|]. destruct G1 as [G1|G1]; [left; assumption|]. right. intro W. specialize (G1 W). lia.
   - right. split; [assumption|]. destruct G1 as [G1|G1]; [left; assumption|]. right. intro W. specialize (G1 W). lia.
@@ -439,7 +442,7 @@ Qed.
 
 Lemma hmv_HInv k idp a b : hmv k a b -> HInv idp a -> sc_sl_done b = false -> HInv idp b.
 Proof.
-  intros M H Hd. destruct M as [c c' S|c l F|c s x SS T W|c id w Hid|c sid Hs|c sid code|c Hc|c c' _ _ D _ _].
+  intros M H Hd. destruct M as [c c' S|c l F|c s x SS T W|c id w Hid|c sid Hs|c sid code|c Hc|c|c c' _ _ D _ _].
   - unfold hsame in S. destruct S as (_ & E1 & _ & _ & E2 & E3 & E4 & E5 & _). destruct H.
     constructor; rewrite ?E1, ?E2, ?E3, ?E4, ?E5; assumption.
   - destruct H. constructor; sc_cbn; auto.
@@ -466,6 +469,7 @@ Proof.
     + intros e I. specialize (hi_ring0 e I). lia.
   - destruct H. constructor; sc_rw; auto.
   - cbn in Hd. discriminate.
+  - cbn in Hd. discriminate.
   - congruence.
 Qed.
 
@@ -481,14 +485,14 @@ Lemma hmvs_HInv k idp a b : hmvs k a b -> HInv idp a -> sc_sl_done b = false -> 
 Proof.
   induction 1 as [|a b c M MS IH]; intros H Hd; [assumption|].
   apply IH; [|assumption]. eapply hmv_HInv; [eassumption | assumption|].
-  destruct (sc_sl_done b) eqn:E; [|reflexivity]. rewrite (hmvs_sl_done_mono _ _ MS E) in Hd. discriminate.
+  destruct (sc_sl_done b) eqn:E; [|reflexivity]. rewrite (hmvs_sl_done_mono _ _ _ MS E) in Hd. discriminate.
 Qed.
 
 (* the carry of the block in progress stays where the next CONTINUATION will look for it *)
 Lemma hmv_carry cur a b v : hmv true a b -> HInv (eq cur) a -> sc_sl_done b = false ->
   carry_at a cur = Some v -> carry_at b cur = Some v.
 Proof.
-  intros M H Hd. destruct M as [c c' S|c l F|c s x SS T W|c id w Hid|c sid Hs|c sid code|c Hc|c c' _ _ D _ _];
+  intros M H Hd. destruct M as [c c' S|c l F|c s x SS T W|c id w Hid|c sid Hs|c sid code|c Hc|c|c c' _ _ D _ _];
     unfold carry_at; sc_rw; auto.
   - unfold hsame in S. destruct S as (_ & E1 & E2 & E3 & E4 & _). rewrite E1, E2, E3, E4. auto.
   - sc_cbn. destruct (sc_discardID c =? cur); [auto|].
@@ -509,7 +513,9 @@ Proof.
       * (* the stream in the middle of its block is closed: it was reset, the carry moves to the registers *)
         rewrite Ex in SS. rewrite SS in S0. inversion S0; subst s0.
         assert (Hx : st_headersFinished x = false) by (rewrite (tr_hf _ _ T); assumption).
-        rewrite (W Hx), Hx in CD. replace (sc_discardID c =? st_id x) with false in CD by lia. cbn [andb negb] in CD.
+        assert (Wx : st_weReset x = true).
+        { destruct (W eq_refl Hx) as [Wx|Rx]; [assumption|]. destruct Px as (_ & P2 & _). destruct (P2 Rx). congruence. }
+        rewrite Wx, Hx in CD. replace (sc_discardID c =? st_id x) with false in CD by lia. cbn [andb negb] in CD.
         inversion CD as [[E1 E2 E3]]. rewrite E1, E2, E3. replace (st_id x =? cur) with true by lia.
         rewrite (tr_bf _ _ T), (tr_prev _ _ T). assumption.
       * destruct (st_weReset x && negb (st_headersFinished x) && negb (sc_discardID c =? st_id x))%bool eqn:Fire.
@@ -524,7 +530,7 @@ Lemma hmvs_carry cur a b v : hmvs true a b -> HInv (eq cur) a -> sc_sl_done b = 
 Proof.
   induction 1 as [|a b c M MS IH]; intros H Hd V; [assumption|].
   assert (Hb : sc_sl_done b = false).
-  { destruct (sc_sl_done b) eqn:E; [|reflexivity]. rewrite (hmvs_sl_done_mono _ _ MS E) in Hd. discriminate. }
+  { destruct (sc_sl_done b) eqn:E; [|reflexivity]. rewrite (hmvs_sl_done_mono _ _ _ MS E) in Hd. discriminate. }
   apply IH; [eapply hmv_HInv; eassumption | assumption | eapply hmv_carry; eassumption].
 Qed.
 
